@@ -141,6 +141,7 @@ func runC19(c *Ctx) {
 	}
 	c19R4(c, matcher, patterns, loop)
 	c19R5(c)
+	c.shared("R6", "C15/R6", "a literal pattern matches when subject == literal: the matcher's equality verdict excludes unset operands like the == operator does", func(o Obligation) bool { return !strings.Contains(o.Key, "getArrayPrototype") }, func(s *Ctx) { equalityAgreement(s, "R6") })
 
 	// R2/R3 in the match arm of evalExpr
 	ee := p.LangFunc("(*Evaluator).evalExpr")
@@ -389,17 +390,17 @@ func c19R4(c *Ctx, matcher *ssa.Function, patterns *ssa.Parameter, loop rangeLoo
 			var cmp *ssa.Call
 			for b := range reg {
 				for _, in := range b.Instrs {
-					if call, ok := in.(*ssa.Call); ok && staticCalleeIs(call, "(*lang.Value).Compare") {
+					if call, ok := in.(*ssa.Call); ok && staticCalleeIs(call, "(*lang.Value).Equals") {
 						cmp = call
 					}
 				}
 			}
 			if cmp == nil {
-				c.violated("R4", "literal-compare", p.Pos(matcher.Pos()), "the literal arm does not call Value.Compare")
+				c.violated("R4", "literal-compare", p.Pos(matcher.Pos()), "the literal arm does not decide by Value.Equals (the == relation)")
 				continue
 			}
 			recvOK := derivesFrom(cmp.Call.Args[0], func(v ssa.Value) bool { return v == ssa.Value(subject) }, 0)
-			c.check(recvOK, "R4", "literal-compare-operands", p.InstrPos(cmp), "subject.Compare(literal)", "the literal arm does not compare the subject (receiver) with the literal (argument)")
+			c.check(recvOK, "R4", "literal-compare-operands", p.InstrPos(cmp), "subject.Equals(literal)", "the literal arm does not compare the subject (receiver) with the literal (argument)")
 			// `true` verdict only under cmp == 0
 			var cmpRes ssa.Value
 			for _, r := range referrersOf(cmp) {
@@ -417,11 +418,9 @@ func c19R4(c *Ctx, matcher *ssa.Function, patterns *ssa.Parameter, loop rangeLoo
 				if v, isC := constBool(effectiveResults(r)[0]); isC && v {
 					n++
 					eq := false
-					for _, rl := range F.At(b).Rels() {
-						if rl.op == relEQ && rl.x == cmpRes {
-							if k, ok := constInt(rl.y); ok && k == 0 {
-								eq = true
-							}
+					for f := range F.At(b) {
+						if f.cond == cmpRes && f.truth {
+							eq = true
 						}
 					}
 					if !eq {
@@ -451,7 +450,7 @@ func c19R4(c *Ctx, matcher *ssa.Function, patterns *ssa.Parameter, loop rangeLoo
 				}
 				c.check(lit != nil && len(extra) == 0, "R4", "literal-compare-unconditional", p.InstrPos(cmp), "every successfully evaluated literal is compared with the subject", "the literal's comparison is additionally guarded by {"+strings.Join(extra, " ; ")+"}: a literal pattern no longer matches exactly when subject == literal")
 			}
-			c.check(good && n == 1, "R4", "literal-match-iff-equal", p.InstrPos(cmp), "verdict true exactly under Compare == 0", "the literal arm's true verdict is not guarded by Compare(...) == 0")
+			c.check(good && n == 1, "R4", "literal-match-iff-equal", p.InstrPos(cmp), "verdict true exactly under subject.Equals(literal)", "the literal arm's true verdict is not guarded by subject.Equals(literal)")
 		case "ExprIdentifier":
 			n := 0
 			good := true
